@@ -175,6 +175,19 @@ func (p *PeerConn) SendTruncated() {
 	p.Abort()
 }
 
+// SendPartial writes the beginning of a text message (header of a 100-byte frame and a few
+// payload bytes) and then nothing more: the receiver stays inside the message until the
+// connection goes away.
+func (p *PeerConn) SendPartial() {
+	p.wmu.Lock()
+	if p.srv != nil { // this end dialled: client frames are masked (zero key)
+		p.c.UnderlyingConn().Write([]byte{0x81, 0x80 | 100, 0, 0, 0, 0, '{', '"', 'j'})
+	} else {
+		p.c.UnderlyingConn().Write([]byte{0x81, 100, '{', '"', 'j'})
+	}
+	p.wmu.Unlock()
+}
+
 func (p *PeerConn) Sent() int { return int(atomic.LoadInt32(&p.sent)) }
 
 // AtStep parks the caller until a harness-chosen number of visible operations
